@@ -27,12 +27,15 @@ theorem paused_phase_no_writes (cfg : Cfg) (ow : Owner) (prev : List Prev) (cls 
     rw [hp] at hnp; cases hnp
 
 /-- … and still probes: a paused phase reports exactly the objects that are missing from the
-cache or fail the probe (it is not reported "ok" blindly). -/
+cache or fail the probe (it is not reported "ok" blindly) — in EVERY world, whatever the process
+has registered with the dynamic cache (nothing, after a restart): the paused step registers the
+kind before it reads (`started_watch`), it never fails with `CacheNotStartedError`, and the only
+thing it changes is that registration. -/
 theorem paused_object_probed (cfg : Cfg) (ow : Owner) (prev : List Prev) (p : PObj) (w : World)
     (hp : ow.paused = true) (hns : ¬(cfg.st = .native ∧ ow.ns ≠ "" ∧ desiredNs ow p ≠ ow.ns)) :
     reconcilePhaseObject cfg ow prev p w =
-      (w, match cacheGet w.store (keyOf cfg ow p) with | some o => .actual o | none => .missing) := by
-  simp only [reconcilePhaseObject, hns, ↓reduceIte, hp]
+      (w.watch ow p.kind, match cacheGet w.store (keyOf cfg ow p) with | some o => .actual o | none => .missing) := by
+  simp only [reconcilePhaseObject_eq, hns, ↓reduceIte, hp]
   cases cacheGet w.store (keyOf cfg ow p) <;> rfl
 
 /-- All phases of a paused ObjectSet: no write on any managed object (`hrem`: reconciling a
